@@ -13,6 +13,23 @@ COMMON_NOTE = ('Trusted: Coq 8.16.1 kernel (full .vo builds, vm_compute for fini
                'harness and oracles. Axioms: see Print Assumptions output copied into the evidence file.')
 
 CLAIMED = {
+    'C17': dict(
+        text='Theorems C17_denotes / C17_call_shape / C17_performs_the_call (denotation lemma and evaluation round trip '
+             'instantiated at pretty_call objects: qualified name, positional arguments in order, keywords in the order '
+             'given, each argument the expression it prints as on its own one level deeper, hugged sole list/dict/tuple '
+             'argument at the same level; eval performs the call), and C17_dataclass_fields / C17_attrs_fields / '
+             'C17_reconstructs / C17_no_reserved_names (Proofs/ExtrasProofs.v) proved over the field-selection '
+             'functions that a fail-closed translator regenerates on every run from the if/elif chains of '
+             'extras/dataclasses.py and extras/attrs.py (Gen/Extras.v): exactly the fields with repr enabled that have '
+             'no default or differ from it, in declaration order; the generated __init__ applied to them rebuilds '
+             'every field; keyword arguments reach pretty_call_alt without passing pretty_call\'s own (ctx, fn) '
+             'parameters. Tie: pretty_call objects vs the printer model; generated dataclasses / attrs classes executed '
+             'for real, printed keywords vs the translated selection functions and an independent Python oracle, eval '
+             'reconstructs an equal instance.',
+        design='5.3 C17', technique='Coq proofs over a source-to-Gallina translation of the selection loops + denotation/evaluation theorems + differential correspondence',
+        note=COMMON_NOTE + ' The comparison default != value is Python\'s and is observed (one boolean per field); '
+             'dataclasses.fields / __attrs_attrs__ and the generated __init__ are library behaviour, modelled by '
+             'init_value. Fragment-level tokens as for C01.'),
     'C13': dict(
         text='Theorems C13_markers_exactly_at_back_references (Proofs/GraphProofs.v: the stateful traversal of the code '
              '- one mutable visited set, start_visit/end_visit around every printer call - refines, for EVERY heap of '
